@@ -10,9 +10,10 @@ TIERS = {
 
 DIRECTED = {
     "quick": [("nested_threads_lossmin", 1), ("nested_threads_lossmin", 2), ("batching_weighted_loss", 3), ("single_int_seed", 4), ("single_povmt", 5), ("four_levels", 6), ("parent_tolerance", 7), ("parent_tolerance", 8), ("two_settings", 9), ("two_settings", 10), ("two_settings", 11)]
+    + [("nested_threads_weighted", 12 + i) for i in range(4)]
     + [("nested_threads_matrix", 300 + i) for i in range(15)],
     "thorough": [("nested_threads_lossmin", i) for i in range(1, 13)] + [("batching_weighted_loss", 20 + i) for i in range(8)]
-    + [("single_int_seed", 40 + i) for i in range(8)] + [("single_povmt", 60 + i) for i in range(4)] + [("four_levels", 80 + i) for i in range(8)] + [("parent_tolerance", 100 + i) for i in range(8)] + [("two_settings", 120 + i) for i in range(12)] + [("nested_threads_matrix", 300 + i) for i in range(90)],
+    + [("single_int_seed", 40 + i) for i in range(8)] + [("single_povmt", 60 + i) for i in range(4)] + [("four_levels", 80 + i) for i in range(8)] + [("parent_tolerance", 100 + i) for i in range(8)] + [("two_settings", 120 + i) for i in range(12)] + [("nested_threads_weighted", 140 + i) for i in range(16)] + [("nested_threads_matrix", 300 + i) for i in range(90)],
 }
 
 # real-joblib calibration of the SimParallel model (thorough tier; see selftest/joblib_calibration.py)
